@@ -129,3 +129,31 @@ Definition tok_ok (t : tok) : bool :=
   | Cmd v _ => is_verb v
   end.
 Definition toks_ok (ts : list tok) : bool := forallb tok_ok ts.
+
+(* ---- several sessions on one transport object ----
+   open(): a (re)opened connection is a new Telnet session.  [reopen] is what open() does to the
+   fields, whatever the previous session left in them and however it ended (close(), a connection
+   the peer reset + close(), a reset without close()): buffers and the eof flag are cleared; with
+   [fresh_neg] (the code as it is now) so are the pending control sequence and the count of answered
+   commands.  [fresh_neg = false] is an open() that keeps the negotiation state of the previous
+   session (refuted in the proofs).  [sent] is per connection, so it starts empty. *)
+Definition reopen (fresh_neg : bool) (st : tstate) : tstate :=
+  mkT [] [] (if fresh_neg then [] else cbuf st)
+      (if fresh_neg then 0%nat else counter st) false [].
+
+(* a history: one transport object, one chunk list (recv results) per session; per session the
+   bytes delivered by its read() calls and the bytes written to ITS connection *)
+Fixpoint run_sessions (persist fresh_neg counting : bool) (limit : nat) (st : tstate)
+  (ss : list (list bytes)) : list (bytes * bytes) :=
+  match ss with
+  | [] => []
+  | chunks :: r =>
+      let (outs, st') := session persist counting limit (S (length chunks))
+                                 (reopen fresh_neg st) chunks in
+      (concat outs, concat (sent st')) :: run_sessions persist fresh_neg counting limit st' r
+  end.
+
+(* what the specification says about one session (chunk list [chunks] carrying token list [ts]) *)
+Definition session_ok (counting : bool) (limit : nat) (ts : list tok) (chunks : list bytes) : Prop :=
+  toks_ok ts = true /\ (counting = true -> (ncmds ts <= limit)%nat) /\
+  Forall (fun c => c <> []) chunks /\ concat chunks = stream ts.
